@@ -48,6 +48,7 @@ TARGETS = {
     "c13_stokes_mg": ("mpi", ["harness/c13_stokes_mg.cpp"], True),
     "c05_streams": ("nompi", ["harness/c05_streams.cpp"], False),
     "c05_checkpoint": ("mpi", ["harness/c05_checkpoint.cpp"], True),
+    "c05_meta": ("nompi", ["harness/c05_meta.cpp"], False),
     "c11_mesh":   ("nompi", ["harness/c11_mesh.cpp"], False),
     "c11_pmap":   ("nompi", ["harness/c11_pmap.cpp"], False),
 }
@@ -56,7 +57,7 @@ PROPERTY_TARGETS = {
     "C17": ["c17_fence", "c17_asm"],
     "C12": ["c12_domain"],
     "C13": ["c13_scalar", "c13_app", "c13_app_neumann", "c13_q2", "c13_dg", "c13_blocked", "c13_stokes", "c13_tm", "c13_stokes_crrt", "c13_stokes_mg"],
-    "C05": ["c05_streams", "c05_checkpoint", "c05_streams.guard"],
+    "C05": ["c05_streams", "c05_checkpoint", "c05_streams.guard", "c05_meta"],
     "C11": ["c11_mesh", "c11_pmap", "c11_mesh.guard", "c11_pmap.guard"],
     "SIMMPI": ["simmpi_selftest"],
 }
